@@ -153,8 +153,9 @@ def pair_part(ck):
             for cl in (False, True):
                 base = dict(sample=kern, clustering=cl, n_particles=8)
                 variants = [dict(evaluation="scalar"), dict(evaluation="vector"), dict(evaluation="vector_reuse"), dict(evaluation="blobs"), dict(pool="perm", pool_seed=sd), dict(pool=1)]
-                if ck.tier == "thorough":
-                    variants.append(dict(pool=2))
+                if ck.tier == "thorough" or (sd == seeds[0] and not cl):
+                    # a real multiprocess pool whose tasks take different times (completion order != submission order)
+                    variants.append(dict(pool=2, slow=0.002))
                 g = []
                 for v in variants:
                     g.append(len(jobs))
